@@ -101,6 +101,7 @@ Definition registry := list (string * reg).
 (* what the factory / the modifier registered for one configured entry does *)
 Inductive beh :=
 | BOk           (* returns its input wrapper *)
+| BModify       (* returns a new wrapper: its input with its own tag appended to the trace *)
 | BFail         (* returns an error *)
 | BIgnored      (* returns a value that is no wrapper (skipped by the type assertion) *)
 | BNilFactory.  (* the factory returns a nil modifier: not added *)
@@ -204,3 +205,68 @@ Definition endpoint_stack (ss : sshape) (R : registry) (pe pb : pshape)
            (r : option resp) (e : err) : comp :=
   static_mw (static_cfg ss)
     (plugin_mw LEndpoint R pe (plugin_mw LBackend R pb (backend_call r e))).
+
+(* ---------- values handed from modifier to modifier ---------- *)
+
+(* The request / response value is observed through a trace: the list of tags of the
+   modifiers that changed it so far (a header on the request, a metadata header on the
+   response).  A BModify modifier returns a new wrapper carrying its input's trace plus its
+   own tag; BOk returns its input; BIgnored returns something that is no wrapper, which the
+   loop skips (`continue`: tmp keeps the previous value); BFail ends the loop. *)
+Definition tag := (level * nat)%type.
+Definition trace := list tag.
+
+Inductive vevent :=
+| VReq (lv : level) (pos : nat) (seen : trace)     (* request modifier invoked with this value *)
+| VBackend (seen : trace)                          (* the backend received this request value *)
+| VResp (lv : level) (pos : nat) (seen : trace).   (* response modifier invoked with this value *)
+
+(* the caller gets a response carrying this trace and no error / anything else *)
+Inductive vresult := VNone | VRet (t : trace).
+Definition vproxy := trace -> (list vevent * vresult)%type.
+
+(* the loop of executeRequestModifiers / executeResponseModifiers on values: what each
+   invoked modifier saw, and the value left in tmp (None: a modifier failed) *)
+Fixpoint thread (lv : level) (l : mods) (v : trace) : list (nat * trace) * option trace :=
+  match l with
+  | [] => ([], Some v)
+  | (p, b) :: rest =>
+      match b with
+      | BFail => ([(p, v)], None)
+      | BModify => let '(s, o) := thread lv rest (v ++ [(lv, p)])%list in ((p, v) :: s, o)
+      | _ => let '(s, o) := thread lv rest v in ((p, v) :: s, o)
+      end
+  end.
+
+Definition vreq (lv : level) (s : list (nat * trace)) : list vevent := map (fun x => VReq lv (fst x) (snd x)) s.
+Definition vresp (lv : level) (s : list (nat * trace)) : list vevent := map (fun x => VResp lv (fst x) (snd x)) s.
+
+(* r.Headers = tmp.Headers() ... then next(ctx, r); resp -> wrapper -> loop -> r.Metadata.Headers *)
+Definition plugin_vrun (lv : level) (rq rs : mods) (inner : vproxy) : vproxy := fun v =>
+  let '(s1, o1) := thread lv rq v in
+  match o1 with
+  | None => (vreq lv s1, VNone)
+  | Some v' =>
+      let '(li, ri) := inner v' in
+      match ri with
+      | VNone => ((vreq lv s1 ++ li)%list, VNone)
+      | VRet t =>
+          let '(s2, o2) := thread lv rs t in
+          ((vreq lv s1 ++ li ++ vresp lv s2)%list, match o2 with Some t' => VRet t' | None => VNone end)
+      end
+  end.
+
+Definition plugin_vmw (lv : level) (R : registry) (s : pshape) (inner : vproxy) : vproxy :=
+  match s with
+  | PNames l => let '(rq, rs) := resolve R 0 l in plugin_vrun lv rq rs inner
+  | _ => inner
+  end.
+
+(* the backend: records the request value; answers with a response carrying t0, or fails *)
+Definition vbackend (t0 : option trace) : vproxy := fun v =>
+  ([VBackend v], match t0 with Some t => VRet t | None => VNone end).
+
+(* endpoint modifiers around backend modifiers around the backend (the static middleware
+   and the stages in between do not touch the two headers) *)
+Definition vstack (R : registry) (pe pb : pshape) (t0 : option trace) : vproxy :=
+  plugin_vmw LEndpoint R pe (plugin_vmw LBackend R pb (vbackend t0)).
